@@ -1,0 +1,16 @@
+//go:build verif
+
+package paths
+
+import "github.com/compose-spec/compose-go/v2/tree"
+
+// VerifResolverKeys holds the pattern keys of the last resolver table built (verification builds only).
+var VerifResolverKeys []string
+
+func verifTable(m map[tree.Path]resolver) {
+	keys := make([]string, 0, len(m))
+	for k := range m {
+		keys = append(keys, string(k))
+	}
+	VerifResolverKeys = keys
+}
